@@ -417,6 +417,9 @@ func cmdReplay(args []string) int {
 		fmt.Fprintln(os.Stderr, err)
 		return 2
 	}
+	if h := findHarness(c.Spec, c.Violation.Harness); h != nil && h.NoNativeReplay {
+		return pinnedReplay(c, h)
+	}
 	ok, txt, err := nativeReplay(c.Spec, c.Tier, c.Violation)
 	if err != nil {
 		fmt.Fprintln(os.Stderr, "replay:", err)
@@ -426,6 +429,79 @@ func cmdReplay(args []string) int {
 	if ok {
 		fmt.Printf("REPLAY-CONFIRMED property=%s label=%s (native build, real AES-GCM, model clock)\n", c.Property, c.Violation.Label)
 		return 1
+	}
+	fmt.Printf("REPLAY-NOT-REPRODUCED property=%s label=%s\n", c.Property, c.Violation.Label)
+	return 0
+}
+
+
+func findHarness(specPath, name string) *harnessSpec {
+	var spec propSpec
+	b, err := os.ReadFile(specPath)
+	if err != nil || json.Unmarshal(b, &spec) != nil {
+		return nil
+	}
+	for i := range spec.Harnesses {
+		if spec.Harnesses[i].Name == name {
+			return &spec.Harnesses[i]
+		}
+	}
+	for i := range spec.Harnesses {
+		if spec.Harnesses[i].Entry == name {
+			return &spec.Harnesses[i]
+		}
+	}
+	return nil
+}
+
+// pinnedReplay re-executes the harness in the executor along the recorded decision vector (inputs, faults, the
+// schedule) and reports whether the same violation occurs. It is the replay of harnesses that observe model state
+// (shadow page table, seal log, scheduler), for which no native run exists.
+func pinnedReplay(c cexFile, h *harnessSpec) int {
+	ts := h.Quick
+	if c.Tier == "thorough" {
+		ts = mergeTier(h.Quick, h.Thorough)
+	}
+	knownIDs, _ := loadKnown()
+	cfg := &sx.Config{
+		Dir: filepath.Join(verifRoot, "engine"), Patterns: h.Patterns, EntryPkg: h.Pkg, Entry: h.Entry,
+		RepoPrefixes: []string{"github.com/godaddy/asherah", "verifh/h", "verifh/vx"}, Allowed: h.Allowed,
+		MaxSteps: orDefault(ts.MaxSteps, 3000000), MaxSplit: orDefault(ts.MaxSplit, 64), PreemptBound: ts.PreemptBound,
+		Workers: 1, TimeoutMs: orDefault(ts.TimeoutMs, 20000), KnownIDs: knownIDs, Params: ts.Params,
+		Overlay: map[string][]byte{}, PinDecisions: append([]int{}, c.Violation.Decisions...),
+	}
+	if cfg.PinDecisions == nil {
+		cfg.PinDecisions = []int{}
+	}
+	for virt, real := range repoOverlay() {
+		if data, err := os.ReadFile(real); err == nil {
+			cfg.Overlay[virt] = data
+		}
+	}
+	for virt, real := range h.Overlay {
+		data, err := os.ReadFile(filepath.Join(verifRoot, real))
+		if err != nil {
+			fmt.Fprintln(os.Stderr, "overlay:", err)
+			return 2
+		}
+		cfg.Overlay[virt] = data
+	}
+	prog, err := sx.Load(cfg)
+	if err != nil {
+		fmt.Println("replay: cannot load the harness:", oneLine(err.Error()))
+		return 2
+	}
+	ex := sx.NewExplorer(cfg, prog)
+	ex.Run()
+	for _, v := range ex.Violations {
+		if v.Label == c.Violation.Label && v.Kind == c.Violation.Kind {
+			fmt.Printf("  decisions: %v\n  tags: %v\n  %s\n", v.Decisions, v.Tags, oneLine(v.Msg))
+			fmt.Printf("REPLAY-CONFIRMED property=%s label=%s (re-execution of the real code in the executor along the recorded inputs / faults / schedule; this harness observes model state, so there is no native run)\n", c.Property, v.Label)
+			return 1
+		}
+	}
+	for _, r := range ex.Inconclusive {
+		fmt.Println("  inconclusive:", oneLine(r))
 	}
 	fmt.Printf("REPLAY-NOT-REPRODUCED property=%s label=%s\n", c.Property, c.Violation.Label)
 	return 0
